@@ -511,6 +511,43 @@ impl<T> Matrix<T>
 where T: Debug + Clone + PartialEq + 'static
 {
 
+  /// Copies the matrix into freshly allocated storage. `Clone` shares the
+  /// underlying cell; this does not.
+  pub fn deep_clone(&self) -> Matrix<T> {
+    match self {
+      #[cfg(feature = "row_vector4")]
+      Matrix::RowVector4(x) => Matrix::RowVector4(Ref::new(x.borrow().clone())),
+      #[cfg(feature = "row_vector3")]
+      Matrix::RowVector3(x) => Matrix::RowVector3(Ref::new(x.borrow().clone())),
+      #[cfg(feature = "row_vector2")]
+      Matrix::RowVector2(x) => Matrix::RowVector2(Ref::new(x.borrow().clone())),
+      #[cfg(feature = "vector4")]
+      Matrix::Vector4(x) => Matrix::Vector4(Ref::new(x.borrow().clone())),
+      #[cfg(feature = "vector3")]
+      Matrix::Vector3(x) => Matrix::Vector3(Ref::new(x.borrow().clone())),
+      #[cfg(feature = "vector2")]
+      Matrix::Vector2(x) => Matrix::Vector2(Ref::new(x.borrow().clone())),
+      #[cfg(feature = "matrix4")]
+      Matrix::Matrix4(x) => Matrix::Matrix4(Ref::new(x.borrow().clone())),
+      #[cfg(feature = "matrix3")]
+      Matrix::Matrix3(x) => Matrix::Matrix3(Ref::new(x.borrow().clone())),
+      #[cfg(feature = "matrix2")]
+      Matrix::Matrix2(x) => Matrix::Matrix2(Ref::new(x.borrow().clone())),
+      #[cfg(feature = "matrix1")]
+      Matrix::Matrix1(x) => Matrix::Matrix1(Ref::new(x.borrow().clone())),
+      #[cfg(feature = "matrix3x2")]
+      Matrix::Matrix3x2(x) => Matrix::Matrix3x2(Ref::new(x.borrow().clone())),
+      #[cfg(feature = "matrix2x3")]
+      Matrix::Matrix2x3(x) => Matrix::Matrix2x3(Ref::new(x.borrow().clone())),
+      #[cfg(feature = "vectord")]
+      Matrix::DVector(x) => Matrix::DVector(Ref::new(x.borrow().clone())),
+      #[cfg(feature = "row_vectord")]
+      Matrix::RowDVector(x) => Matrix::RowDVector(Ref::new(x.borrow().clone())),
+      #[cfg(feature = "matrixd")]
+      Matrix::DMatrix(x) => Matrix::DMatrix(Ref::new(x.borrow().clone())),
+    }
+  }
+
   pub fn append(&mut self, other: &Matrix<T>) -> MResult<()> {
     match (&self, &other) {
       #[cfg(feature = "vectord")]
